@@ -1,1 +1,149 @@
-(* Proofs/Roots.v -- stub, to be filled in *)
+(* Proofs/Roots.v -- lemmas about Model/Roots.v.
+   Part 1 (this file): statements that hold for EVERY RootArith (any arithmetic, floats included):
+   the iteration bound of laguer, the number of values returned by poly_solve, degree-0 rejection. *)
+From Coq Require Import List Arith Bool Lia.
+From OV Require Import Base.Panic Base.Arith Model.Complex gen.Params Model.Roots.
+Import ListNotations.
+
+Section AnyArith.
+Context (RA : RootArith).
+Notation K := (T (KK RA)).
+
+(* ---------- laguer: at most MAXIT - 1 passes through the loop ---------- *)
+Lemma laguer_loop_iters a m x0 fin0 fuel : forall iter x l,
+  laguer_loop RA a m x0 fin0 fuel iter x = Ok l -> 1 <= iter -> liters l <= iter + fuel - 1.
+Proof.
+  induction fuel as [|fuel IH]; intros iter x l E Hi; cbn [laguer_loop] in E.
+  - injection E as <-. cbn [liters]. lia.
+  - apply bind_ok in E as (o & Eo & E). destruct o as [[why tok]|x'].
+    + injection E as <-. cbn [liters]. lia.
+    + apply IH in E; lia.
+Qed.
+
+Lemma laguer_bounded_lemma a x l : laguer RA a x = Ok l -> liters l <= MAXIT - 1.
+Proof.
+  unfold laguer. intros E. apply bind_ok in E as (m & _ & E).
+  apply laguer_loop_iters in E; lia.
+Qed.
+
+(* an Exhausted exit has used every pass *)
+Lemma laguer_loop_exhausted a m x0 fin0 fuel : forall iter x l,
+  laguer_loop RA a m x0 fin0 fuel iter x = Ok l -> 1 <= iter -> lwhy l = Exhausted -> liters l = iter + fuel - 1.
+Proof.
+  induction fuel as [|fuel IH]; intros iter x l E Hi Hw; cbn [laguer_loop] in E.
+  - injection E as <-. cbn [liters]. lia.
+  - apply bind_ok in E as (o & Eo & E). destruct o as [[why tok]|x'].
+    + injection E as <-. cbn [lwhy] in Hw. subst why.
+      unfold laguer_step in Eo.
+      apply bind_ok in Eo as (st & _ & Eo). destruct st as [[[b err] d] f].
+      destruct (leb _ _); [discriminate|].
+      apply bind_ok in Eo as (g & _ & Eo). apply bind_ok in Eo as (fb & _ & Eo).
+      apply bind_ok in Eo as (m1 & _ & Eo). apply bind_ok in Eo as (sq & _ & Eo).
+      apply bind_ok in Eo as (dx & _ & Eo).
+      destruct (eqb _ _); [discriminate|].
+      destruct (negb _); [discriminate|].
+      apply bind_ok in Eo as (fr & _ & Eo). discriminate.
+    + apply IH in E; [lia | lia | assumption].
+Qed.
+
+Lemma laguer_exhausted_lemma a x l :
+  laguer RA a x = Ok l -> lwhy l = Exhausted -> liters l = MAXIT - 1.
+Proof.
+  unfold laguer. intros E Hw. apply bind_ok in E as (m & _ & E).
+  apply laguer_loop_exhausted in E; [lia | lia | exact Hw].
+Qed.
+
+(* ---------- poly_solve: exactly n values ---------- *)
+Lemma quadratic_solve_gen_length fixed a b c rs :
+  quadratic_solve_gen RA fixed a b c = Ok rs -> length rs = 2.
+Proof.
+  unfold quadratic_solve_gen. intros E.
+  apply bind_ok in E as (s1 & _ & E). apply bind_ok in E as (s2 & _ & E).
+  apply bind_ok in E as (r0 & _ & E). apply bind_ok in E as (r1 & _ & E).
+  now injection E as <-.
+Qed.
+
+Lemma cubic_solve_gen_length cs a b c d rs :
+  cubic_solve_gen RA cs a b c d = Ok rs -> length rs = 3.
+Proof.
+  unfold cubic_solve_gen. destruct (cubic_disc RA a b c d) as [[d0 d1] rad]. intros E.
+  destruct (eqb d0 zero && eqb d1 zero).
+  - apply bind_ok in E as (r & _ & E). now injection E as <-.
+  - repeat (apply bind_ok in E as (? & _ & E)). now injection E as <-.
+Qed.
+
+Lemma solve_body_length j ad roots tr ad' roots' tr' :
+  solve_body RA j (ad, roots, tr) = Ok (ad', roots', tr') -> length roots' = length roots.
+Proof.
+  unfold solve_body. intros E.
+  apply bind_ok in E as (adv & _ & E). apply bind_ok in E as (l & _ & E).
+  apply bind_ok in E as (r' & Er & E). apply bind_ok in E as (db & _ & E).
+  injection E as _ <- _. apply upd_Ok_inv in Er as (_ & ->). apply upd_list_length.
+Qed.
+
+Lemma polish_body_length a j roots tr roots' tr' :
+  polish_body RA a j (roots, tr) = Ok (roots', tr') -> length roots' = length roots.
+Proof.
+  unfold polish_body. intros E.
+  apply bind_ok in E as (x & _ & E). apply bind_ok in E as (l & _ & E).
+  apply bind_ok in E as (r' & Er & E). injection E as <- _.
+  apply upd_Ok_inv in Er as (_ & ->). apply upd_list_length.
+Qed.
+
+Lemma roots_length_lemma coeffs refine rs tr :
+  poly_solve RA coeffs refine = Ok (rs, tr) -> length rs = length coeffs - 1.
+Proof.
+  unfold poly_solve. intros E.
+  apply bind_ok in E as (degree & Ed & E).
+  unfold usub in Ed. destruct (1 <=? length coeffs) eqn:H1; [|discriminate]. injection Ed as <-.
+  set (n := length coeffs - 1) in *.
+  destruct (n =? 0) eqn:H0; [discriminate|].
+  apply bind_ok in E as (r1 & E1 & E).
+  assert (L1 : length r1 = n).
+  { destruct (n =? 1).
+    - apply bind_ok in E1 as (c0 & _ & E1). apply bind_ok in E1 as (c1 & _ & E1).
+      apply bind_ok in E1 as (r & _ & E1). apply upd_Ok_inv in E1 as (_ & ->).
+      rewrite upd_list_length. apply repeat_length.
+    - injection E1 as <-. apply repeat_length. }
+  apply bind_ok in E as (r2 & E2 & E).
+  assert (L2 : length r2 = n).
+  { destruct (n =? 2) eqn:H2.
+    - apply Nat.eqb_eq in H2. rewrite H2.
+      apply bind_ok in E2 as (a & _ & E2). apply bind_ok in E2 as (b & _ & E2).
+      apply bind_ok in E2 as (c & _ & E2). now apply quadratic_solve_gen_length in E2.
+    - now injection E2 as <-. }
+  apply bind_ok in E as (r3 & E3 & E).
+  assert (L3 : length r3 = n).
+  { destruct (n =? 3) eqn:H3.
+    - apply Nat.eqb_eq in H3. rewrite H3.
+      apply bind_ok in E3 as (a & _ & E3). apply bind_ok in E3 as (b & _ & E3).
+      apply bind_ok in E3 as (c & _ & E3). apply bind_ok in E3 as (d & _ & E3).
+      now apply cubic_solve_gen_length in E3.
+    - now injection E3 as <-. }
+  apply bind_ok in E as ([r4 t4] & E4 & E).
+  assert (L4 : length r4 = n).
+  { destruct (3 <? n).
+    - apply bind_ok in E4 as ([[ad rr] tt] & Ef & E4). injection E4 as <- _. cbn [fst snd].
+      unfold for_rev in Ef.
+      pose (I := fun (_ : nat) (s : list K * list K * list (lres K)) => length (snd (fst s)) = n).
+      apply (for_rev_from_inv_partial I) in Ef; [exact Ef | exact L3 |].
+      intros k [[ad0 rr0] tt0] [[ad1 rr1] tt1] _ HI Eb. unfold I in *; cbn [fst snd] in *.
+      apply solve_body_length in Eb. congruence.
+    - now injection E4 as <- _. }
+  destruct refine.
+  - unfold for_ in E.
+    pose (I := fun (_ : nat) (s : list K * list (lres K)) => length (fst s) = n).
+    apply (for_from_inv_partial I) in E; [exact E | exact L4 |].
+    intros i [rr0 tt0] [rr1 tt1] _ HI Eb. unfold I in *; cbn [fst] in *.
+    apply polish_body_length in Eb. congruence.
+  - now injection E as <- _.
+Qed.
+
+Lemma degree0_rejected_lemma (c : K) refine : poly_solve RA [c] refine = Panic Guard.
+Proof. reflexivity. Qed.
+
+Lemma empty_rejected_lemma refine : poly_solve RA [] refine = Panic Underflow.
+Proof. reflexivity. Qed.
+
+(* the trace: one laguer call per root in the deflation phase (degree >= 4), one more per root when polishing *)
+End AnyArith.
